@@ -273,7 +273,9 @@ _CONFIG_V3_YAML_TAG = 'tag:barectf.org,2020/3/config'
 #
 # All YAML maps are loaded as `collections.OrderedDict` objects.
 def _yaml_load(file: TextIO) -> Union[_ConfigNodeV3, _MapNode]:
-    class Loader(yaml.Loader):
+    # A barectf configuration file only contains plain YAML values:
+    # never construct arbitrary Python objects from it.
+    class Loader(yaml.SafeLoader):
         pass
 
     def construct_map(loader, node) -> _MapNode:
